@@ -97,3 +97,19 @@ package main
 //@   invariant count: len(configLines) == pre(len(configLines)) + kept && kept >= 0
 //@   invariant prefix: forall(k, 0, pre(len(configLines)), configLines[k] == pre(configLines[k]))
 //@   invariant nonempty: forall(k, pre(len(configLines)), len(configLines), len(configLines[k]) > 0)
+
+// C17: the parsed line range reaches the dispatcher unchanged (start index and END LINE, not a count: the dispatch loop
+// uses its fourth argument as an exclusive end index), and all lines that were read are handed over
+//@ region main#dispatch from "if len(configLines) > 0 {" to "if len(configLines) > 0 {"
+//@   serves C17
+//@   opaque doConcurrentBatchRun
+//@   ghost var calls int = 0
+//@   ghost var passedStart int
+//@   ghost var passedEnd int
+//@   ghost var passedLines int
+//@   at call doConcurrentBatchRun: ghost calls = calls + 1
+//@   at call doConcurrentBatchRun: ghost passedStart = arg2
+//@   at call doConcurrentBatchRun: ghost passedEnd = arg3
+//@   at call doConcurrentBatchRun: ghost passedLines = len(arg5)
+//@   ensures once: len(configLines) > 0 ==> calls == 1
+//@   ensures range: len(configLines) > 0 ==> passedStart == startLine && passedEnd == endLine && passedLines == len(configLines)
